@@ -2,7 +2,7 @@
    (codec level; the history-level statement is tied differentially, see DESIGN). *)
 From Coq Require Import String.
 From Coq Require Import List NArith ZArith Bool.
-From Verif Require Import GoStr GoNum GoHeader Meta C07Proofs.
+From Verif Require Import GoStr GoNum GoHeader Meta C07Proofs NumRT C07Codec.
 Import ListNotations.
 
 (* Framing: nine '|'-free fields of any content and length are recovered exactly. *)
@@ -32,3 +32,35 @@ Proof.
   split; [exact C07_refuted_close_comma | exact C07_refuted_bar].
 Qed.
 Print Assumptions C07_refuted.
+
+(* The codec round trip, for EVERY record outside the region of known finding F6-delimiters:
+   any number of header names, any number of values per name (kept in order since fix
+   F6-multi-valued), values of any length containing commas, colons, quotes, '=' ... as long as
+   - host, path and redirect URL contain no '|',
+   - names are canonical, pairwise distinct, and free of ':' ']' '{' '}' '|',
+   - values contain neither '|' nor the two bytes "]," and neither begin nor end with '[' or ']',
+   - the four numbers are int64 values.
+   What the decoder returns is the stored record with each header block listed in the order of its
+   names (headerToS sorts; Go's http.Header is a map, so the order of names carries no meaning). *)
+Theorem C07_codec_roundtrip :
+  forall m, meta_ok m -> decode_meta (encode_meta m) = Some (meta_sorted m).
+Proof. exact codec_roundtrip. Qed.
+Print Assumptions C07_codec_roundtrip.
+
+(* ... of which the header block is the substantial part ... *)
+Theorem C07_header_block_roundtrip :
+  forall h, hdrs_ok h -> s_to_header (header_to_s h) = Some (sort_hdrs h).
+Proof. exact s_to_header_roundtrip. Qed.
+Print Assumptions C07_header_block_roundtrip.
+
+(* ... and the numbers: strconv.ParseInt (strconv.FormatInt z) = z for every int64. *)
+Theorem C07_number_roundtrip :
+  forall z, (int64_min <= z <= int64_max)%Z -> parse_int (format_int z) = Some z.
+Proof. exact parse_format_int. Qed.
+Print Assumptions C07_number_roundtrip.
+
+(* The hypothesis is met by ordinary responses (repeated Set-Cookie and Vary, quoted ETag,
+   comma-separated Cache-Control, a path with brackets): *)
+Example C07_codec_hypothesis_is_satisfiable :
+  exists m, meta_ok m /\ length (m_resph m) = 4%nat /\ hvalues (m_resph m) (bytes "Set-Cookie") = [bytes "a=1; Path=/"; bytes "b=2"].
+Proof. eexists. split; [exact meta_ok_sample|]. split; reflexivity. Qed.
